@@ -90,6 +90,12 @@ fn prog(cfg: &Cfg) {
     for g in &gates {
         g.open();
     }
+    if cfg.opt("stale", 0) == 1 {
+        // every waker the gates were ever given fires once more, whatever its operation is doing by now
+        for g in &gates {
+            g.fire_stale();
+        }
+    }
     if cfg.opt("late", 0) == 0 {
         for (_, bg) in &pins {
             bg.open();
